@@ -467,6 +467,11 @@ class CxEval(object):
             return Cx(Rat.const(t[1]))
         if k == 'imag':
             return Cx(im=Rat.const(t[1]))
+        if k == 'meth' and t[2] == 'gen_sample' and not t[3] and t[1][0] == 'call' and t[1][1].split('.')[-1] == 'RealInterval' \
+                and len(t[1][2]) == 1 and t[1][2][0][0] == 'cfg':
+            key = t[1][2][0][1]
+            n = self.count[key] = self.count.get(key, 0) + 1
+            return Cx(Rat.sym('%s%s' % (key, "'" * (n - 1))))
         if k == 'meth' and t[2] == 'gen_sample' and t[1][0] == 'attr' and t[1][1] == ('self',) and not t[3]:
             key = self.attr_keys.get(t[1][2])
             if key is None:
@@ -499,15 +504,66 @@ class CxEval(object):
         raise Unsupported('`%s` is outside the complex composition model' % ai.show(t))
 
 
+def _roles_bound_by_dict_order(r, idx, ci, cls, ctor, k1, k2):
+    """The constructor builds its RealIntervals by walking self.config (items / values / keys) into an ordered container and
+    gen_sample hands the draws on positionally: the roles then follow the iteration order of the validated dictionary, which
+    is the order in which the author wrote the options, not the declared (re, im) / (modulus, argument) order."""
+    me = ctor.params[0]
+
+    def is_config(e):
+        return isinstance(e, ast.Attribute) and e.attr == 'config' and isinstance(e.value, ast.Name) and e.value.id == me
+    loops = []
+    for n in walk_own(ctor.node):
+        if isinstance(n, ast.For):
+            it = n.iter
+            if is_config(it) or (isinstance(it, ast.Call) and isinstance(it.func, ast.Attribute) and it.func.attr in ('items', 'values', 'keys')
+                                 and is_config(it.func.value)):
+                loops.append(n)
+    if not loops:
+        return False
+    loop = loops[0]
+    builds = [c for c in ast.walk(loop) if isinstance(c, ast.Call) and nf.callee_name(c) == 'RealInterval']
+    appends = [c for c in ast.walk(loop) if isinstance(c, ast.Call) and isinstance(c.func, ast.Attribute) and c.func.attr == 'append'
+               and isinstance(c.func.value, ast.Attribute) and isinstance(c.func.value.value, ast.Name) and c.func.value.value.id == me]
+    if not builds or not appends:
+        return False
+    container = appends[0].func.value.attr
+    gs = _func(idx, ci.qualname + '.gen_sample')
+    gme = gs.params[0]
+    positional = False
+    for c in ast.walk(gs.node):
+        if isinstance(c, ast.Call):
+            for a in c.args:
+                if isinstance(a, ast.Starred) and any(isinstance(x, ast.Attribute) and x.attr == container and isinstance(x.value, ast.Name)
+                                                      and x.value.id == gme for x in ast.walk(a)):
+                    positional = True
+        if isinstance(c, ast.Subscript) and isinstance(c.value, ast.Attribute) and c.value.attr == container \
+                and isinstance(c.slice, ast.Constant) and isinstance(c.slice.value, int):
+            positional = True
+    if not positional:
+        return False
+    r.violation('%s: roles of the two ranges' % cls, 'the RealIntervals are collected in self.%s by iterating over `%s`, and gen_sample hands the '
+                'draws on positionally: the roles (%s, %s) therefore follow the iteration order of the validated configuration dictionary, '
+                'i.e. the order in which the author wrote the options, not the declared order. %s(%s=[...], %s=[...]) swaps the two: the '
+                'sample is %s' % (container, short(loop.iter), k1, k2, cls, k2, k1,
+                                 'im + re*1j - outside the declared rectangle' if cls == 'ComplexRectangle'
+                                 else 'argument * exp(1j*modulus) - outside the declared sector'),
+                lib.loc(ctor, loop), expected='intervals built in the declared order (%s, %s)' % (k1, k2), found='for ... in %s' % short(loop.iter))
+    return True
+
+
 def d1_complex(ctx, idx):
     r = ctx.rule('D1.CPLX', 'ComplexRectangle = re + im*1j and ComplexSector = modulus*exp(1j*argument) from the right config keys', floor=6)
     spec = {'ComplexRectangle': ('re', 'im'), 'ComplexSector': ('modulus', 'argument')}
     with r:
         for cls, (k1, k2) in spec.items():
+            ci = idx.cls(S + cls)
             ctor = _func(idx, S + cls + '.__init__')
             try:
-                cpaths = ai.sym_exec(idx, ctor)
+                cpaths = ai.sym_exec(idx, ctor, self_cls=ci)
             except Unsupported as e:
+                if _roles_bound_by_dict_order(r, idx, ci, cls, ctor, k1, k2):
+                    continue
                 raise AnalysisError('%s.__init__: %s' % (cls, e))
             if len(cpaths) != 1 or cpaths[0].kind != 'fall':
                 raise AnalysisError('%s.__init__: expected straight-line code' % cls)
@@ -520,7 +576,30 @@ def d1_complex(ctx, idx):
                 if key not in (k1, k2):
                     r.violation('%s.__init__: self.%s' % (cls, attr), 'built from config[%r], which is not an option of the set' % key, ctor.loc)
             gs = _func(idx, S + cls + '.gen_sample')
-            p = _single_return(idx, gs)
+            try:
+                gpaths = ai.sym_exec(idx, gs, store=cpaths[0].store)      # the attributes set up by the constructor are visible
+            except Unsupported as e:
+                raise AnalysisError('%s.gen_sample: %s' % (cls, e))
+            if len(gpaths) != 1 or gpaths[0].kind != 'ret':
+                raise AnalysisError('%s.gen_sample: expected a single return' % cls)
+            p = gpaths[0]
+            # template method: self.combine(a, b) is the concrete class's formula
+            val = p.value
+            if val[0] == 'meth' and val[1] == ('self',) and not val[4]:
+                callee = idx.lookup(ci, val[2])
+                if callee is not None and len(callee.params) == len(val[3]) + 1 and callee.module.name.startswith('mitxgraders.'):
+                    try:
+                        cps = ai.sym_exec(idx, callee, env=dict(zip(callee.params[1:], val[3])))
+                    except Unsupported:
+                        cps = []
+                    if len(cps) == 1 and cps[0].kind == 'ret':
+                        p = ai.SPath(p.guards, 'ret', cps[0].value, None, cps[0].stmt, p.store, p.env, p.effects, p.closures)
+                        gs = callee
+            for loc_t, val_ in cpaths[0].store.items():
+                if loc_t[0] == 'attr' and val_[0] == 'list':
+                    for x in val_[1]:
+                        if x[0] == 'call' and x[1].split('.')[-1] == 'RealInterval' and len(x[2]) == 1 and x[2][0][0] == 'cfg':
+                            attr_keys.setdefault('%s[%s]' % (loc_t[2], x[2][0][1]), x[2][0][1])
             where = lib.loc(gs, p.stmt)
             ev = CxEval(attr_keys)
             construct = '%s.gen_sample' % cls
@@ -925,6 +1004,8 @@ _REFUSALS_TABLE_OK = '        symmetry = self.config[\'symmetry\']\n        is_c
 _IDENT_SLIP = [("        self.config['shape'] = (self.config['dimension'], self.config['dimension'])\n", "        self.config['shape'] = (self.config['dimension'], self.config['dimension'])\n\n    def scaled_identity(self, scale):\n        field = complex if self.config['complex'] else float\n        return (scale * np.eye(self.config['dimension'])).astype(field)\n"), ("        array = scaling * np.eye(self.config['dimension'])\n", '        array = self.scaled_identity(scaling)\n'), ('            working = working - trace / dim * np.eye(dim)\n', '            working = working - self.scaled_identity(trace / dim)\n'), ("        return array - np.eye(self.config['dimension']) * eigenvalue\n", '        return array - self.scaled_identity(eigenvalue)\n')]
 _IDENT_OK = [("        self.config['shape'] = (self.config['dimension'], self.config['dimension'])\n", "        self.config['shape'] = (self.config['dimension'], self.config['dimension'])\n\n    def scaled_identity(self, scale):\n        return scale * np.eye(self.config['dimension'])\n"), ("        array = scaling * np.eye(self.config['dimension'])\n", '        array = self.scaled_identity(scaling)\n'), ('            working = working - trace / dim * np.eye(dim)\n', '            working = working - self.scaled_identity(trace / dim)\n'), ("        return array - np.eye(self.config['dimension']) * eigenvalue\n", '        return array - self.scaled_identity(eigenvalue)\n')]
 _REFUSALS_METHOD_OK = '        for refused, message in self._refusals():\n            if refused:\n                raise ConfigError(message)\n\n    def _refusals(self):\n        """Ordered (applies, message) pairs for the option combinations we refuse"""\n        symmetry = self.config[\'symmetry\']\n        is_complex = self.config[\'complex\']\n        zero_det = self.config[\'determinant\'] == 0\n        unit_det = self.config[\'determinant\'] == 1\n        odd = self.config[\'dimension\'] % 2 == 1\n        traceless_2x2 = self.config[\'traceless\'] and self.config[\'dimension\'] == 2\n        unsupported = (\n            (zero_det and self.config[\'traceless\'],\n             "Unable to generate zero determinant traceless matrices"),\n            (zero_det and symmetry == \'antisymmetric\' and is_complex,\n             "Unable to generate complex zero determinant antisymmetric matrices"),\n            (zero_det and symmetry == \'antisymmetric\' and not odd,\n             "Unable to generate real zero determinant antisymmetric matrices in even dimensions"),\n            (unit_det and traceless_2x2 and symmetry == \'diagonal\' and not is_complex,\n             "No real, traceless, unit-determinant, diagonal 2x2 matrix exists"),\n            (unit_det and traceless_2x2 and symmetry == \'symmetric\' and not is_complex,\n             "No real, traceless, unit-determinant, symmetric 2x2 matrix exists"),\n            (unit_det and traceless_2x2 and symmetry == \'hermitian\',\n             "No traceless, unit-determinant, Hermitian 2x2 matrix exists"),\n            (unit_det and odd and symmetry == \'antisymmetric\',\n             "No unit-determinant antisymmetric matrix exists in odd dimensions"),\n            (unit_det and odd and symmetry == \'antihermitian\',\n             "No unit-determinant antihermitian matrix exists in odd dimensions"),\n        )\n        return unsupported\n\n'
+_CPLX_BASE_SLIP = [('        return np.random.randint(low=self.config[\'start\'], high=self.config[\'stop\'] + 1)\n\n\nclass ComplexRectangle(ScalarSamplingSet):\n    """\n    Represents a rectangle in the complex plane from which to sample.\n\n', '        return np.random.randint(low=self.config[\'start\'], high=self.config[\'stop\'] + 1)\n\n\nclass ComplexSamplingSet(ScalarSamplingSet):  # pylint: disable=abstract-method\n    """\n    Represents a region of the complex plane that is described by two real ranges.\n\n    Every entry of the configuration is a range. A RealInterval is set up for each of\n    them (also available as an attribute named after the entry), and a sample is made by\n    drawing a number from each of the intervals and handing these numbers, in the order\n    of the entries, to combine().\n\n    Note that this is an abstract class.\n    """\n\n    def __init__(self, config=None, **kwargs):\n        """\n        Configure the class as normal, then set up each of the ranges\n        as a RealInterval object\n        """\n        super(ComplexSamplingSet, self).__init__(config, **kwargs)\n        self.intervals = []\n        for name, number_range in self.config.items():\n            interval = RealInterval(number_range)\n            setattr(self, name, interval)\n            self.intervals.append(interval)\n\n    @abc.abstractmethod\n    def combine(self, first, second):\n        """Construct a complex number from a number drawn from each of the two ranges"""\n\n    def gen_sample(self):\n        """Generates a random sample in the defined region of the complex plane"""\n        return self.combine(*[interval.gen_sample() for interval in self.intervals])\n\n\nclass ComplexRectangle(ComplexSamplingSet):\n    """\n    Represents a rectangle in the complex plane from which to sample.\n\n'), ('        Required(\'im\', default=[1, 3]): NumberRange()\n    })\n\n    def __init__(self, config=None, **kwargs):\n        """\n        Configure the class as normal, then set up the real and imaginary\n        parts as RealInterval objects\n        """\n        super(ComplexRectangle, self).__init__(config, **kwargs)\n        self.re = RealInterval(self.config[\'re\'])\n        self.im = RealInterval(self.config[\'im\'])\n\n    def gen_sample(self):\n        """Generates a random sample in the defined rectangle in the complex plane"""\n        return self.re.gen_sample() + self.im.gen_sample()*1j\n\n\nclass ComplexSector(ScalarSamplingSet):\n    """\n    Represents an annular sector in the complex plane from which to sample,\n    based on a given range of modulus and argument.\n', '        Required(\'im\', default=[1, 3]): NumberRange()\n    })\n\n    def combine(self, re, im):  # pylint: disable=arguments-differ\n        """Returns the point of the rectangle with the given real and imaginary parts"""\n        return re + im*1j\n\n\nclass ComplexSector(ComplexSamplingSet):\n    """\n    Represents an annular sector in the complex plane from which to sample,\n    based on a given range of modulus and argument.\n'), ('        Required(\'argument\', default=[0, np.pi/2]): NumberRange()\n    })\n\n    def __init__(self, config=None, **kwargs):\n        """\n        Configure the class as normal, then set up the modulus and argument\n        parts as RealInterval objects\n        """\n        super(ComplexSector, self).__init__(config, **kwargs)\n        self.modulus = RealInterval(self.config[\'modulus\'])\n        self.argument = RealInterval(self.config[\'argument\'])\n\n    def gen_sample(self):\n        """Generates a random sample in the defined annular sector in the complex plane"""\n        return self.modulus.gen_sample() * np.exp(1j * self.argument.gen_sample())\n\n\nclass DiscreteSet(VariableSamplingSet):  # pylint: disable=too-few-public-methods\n', '        Required(\'argument\', default=[0, np.pi/2]): NumberRange()\n    })\n\n    def combine(self, modulus, argument):  # pylint: disable=arguments-differ\n        """Returns the point of the sector with the given modulus and argument"""\n        return modulus * np.exp(1j * argument)\n\n\nclass DiscreteSet(VariableSamplingSet):  # pylint: disable=too-few-public-methods\n')]
+_CPLX_BASE_OK = [('        return np.random.randint(low=self.config[\'start\'], high=self.config[\'stop\'] + 1)\n\n\nclass ComplexRectangle(ScalarSamplingSet):\n    """\n    Represents a rectangle in the complex plane from which to sample.\n\n', '        return np.random.randint(low=self.config[\'start\'], high=self.config[\'stop\'] + 1)\n\n\nclass ComplexSamplingSet(ScalarSamplingSet):  # pylint: disable=abstract-method\n    """\n    Represents a region of the complex plane that is described by two real ranges.\n\n    Every entry of the configuration is a range. A RealInterval is set up for each of\n    them (also available as an attribute named after the entry), and a sample is made by\n    drawing a number from each of the intervals and handing these numbers, in the order\n    of the entries, to combine().\n\n    Note that this is an abstract class.\n    """\n\n    def __init__(self, config=None, **kwargs):\n        """\n        Configure the class as normal, then set up each of the ranges\n        as a RealInterval object\n        """\n        super(ComplexSamplingSet, self).__init__(config, **kwargs)\n        self.intervals = []\n        for name in self.parts:\n            interval = RealInterval(self.config[name])\n            setattr(self, name, interval)\n            self.intervals.append(interval)\n\n    @abc.abstractmethod\n    def combine(self, first, second):\n        """Construct a complex number from a number drawn from each of the two ranges"""\n\n    def gen_sample(self):\n        """Generates a random sample in the defined region of the complex plane"""\n        return self.combine(*[interval.gen_sample() for interval in self.intervals])\n\n\nclass ComplexRectangle(ComplexSamplingSet):\n    """\n    Represents a rectangle in the complex plane from which to sample.\n\n'), ('        Required(\'im\', default=[1, 3]): NumberRange()\n    })\n\n    def __init__(self, config=None, **kwargs):\n        """\n        Configure the class as normal, then set up the real and imaginary\n        parts as RealInterval objects\n        """\n        super(ComplexRectangle, self).__init__(config, **kwargs)\n        self.re = RealInterval(self.config[\'re\'])\n        self.im = RealInterval(self.config[\'im\'])\n\n    def gen_sample(self):\n        """Generates a random sample in the defined rectangle in the complex plane"""\n        return self.re.gen_sample() + self.im.gen_sample()*1j\n\n\nclass ComplexSector(ScalarSamplingSet):\n    """\n    Represents an annular sector in the complex plane from which to sample,\n    based on a given range of modulus and argument.\n', '        Required(\'im\', default=[1, 3]): NumberRange()\n    })\n\n    parts = (\'re\', \'im\')\n\n    def combine(self, re, im):  # pylint: disable=arguments-differ\n        """Returns the point of the rectangle with the given real and imaginary parts"""\n        return re + im*1j\n\n\nclass ComplexSector(ComplexSamplingSet):\n    """\n    Represents an annular sector in the complex plane from which to sample,\n    based on a given range of modulus and argument.\n'), ('        Required(\'argument\', default=[0, np.pi/2]): NumberRange()\n    })\n\n    def __init__(self, config=None, **kwargs):\n        """\n        Configure the class as normal, then set up the modulus and argument\n        parts as RealInterval objects\n        """\n        super(ComplexSector, self).__init__(config, **kwargs)\n        self.modulus = RealInterval(self.config[\'modulus\'])\n        self.argument = RealInterval(self.config[\'argument\'])\n\n    def gen_sample(self):\n        """Generates a random sample in the defined annular sector in the complex plane"""\n        return self.modulus.gen_sample() * np.exp(1j * self.argument.gen_sample())\n\n\nclass DiscreteSet(VariableSamplingSet):  # pylint: disable=too-few-public-methods\n', '        Required(\'argument\', default=[0, np.pi/2]): NumberRange()\n    })\n\n    parts = (\'modulus\', \'argument\')\n\n    def combine(self, modulus, argument):  # pylint: disable=arguments-differ\n        """Returns the point of the sector with the given modulus and argument"""\n        return modulus * np.exp(1j * argument)\n\n\nclass DiscreteSet(VariableSamplingSet):  # pylint: disable=too-few-public-methods\n')]
 _LOOP_HEAD = "        loops = 0\n        while loops < 100:\n            loops += 1\n"
 
 _TRI_OLD = "        if self.config['triangular'] == 'upper':\n            return np.triu(array)\n        elif self.config['triangular'] == 'lower':\n            return np.tril(array)\n        return array\n\n\n"
@@ -960,6 +1041,8 @@ MUTANTS = [
            "self.argument.gen_sample() * np.exp(1j * self.modulus.gen_sample())", 'D1'),
     Mutant('sector-real-exponential', SAMPLING, "np.exp(1j * self.argument.gen_sample())", "np.exp(self.argument.gen_sample())", 'D1'),
     Mutant('sector-wrong-key', SAMPLING, "self.argument = RealInterval(self.config['argument'])", "self.argument = RealInterval(self.config['modulus'])", 'D1'),
+    Mutant('complex-sets-on-a-base-class-roles-by-config-order', SAMPLING, _CPLX_BASE_SLIP, None, 'D1',
+           note='wave-6 seed: intervals collected by iterating self.config.items(); combine(re, im) gets the author\'s option order'),
     Mutant('discrete-returns-index', SAMPLING, '"""Return a random entry from the given set"""\n        return random.choice(self.config)',
            '"""Return a random entry from the given set"""\n        return random.choice(range(len(self.config)))', 'D1'),
     # D2
@@ -1050,6 +1133,7 @@ _POSITIVE_STARRED = """    if thetype == int:
 """
 
 BENIGN = [
+    Benign('complex-sets-on-a-base-class-declared-parts-order', SAMPLING, _CPLX_BASE_OK, None),
     Benign('refusals-table-built-by-a-method', MATRIX, _REFUSALS_OLD, _REFUSALS_METHOD_OK),
     Benign('rf-tile-by-coefficient-shape', SAMPLING, "xarray = np.tile(xvec, (output_dim, num_terms, 1))", "xarray = np.tile(xvec, (A.shape[0], A.shape[1], 1))"),
     Benign('refusals-as-ordered-table-and-loop', MATRIX, _REFUSALS_OLD, _REFUSALS_TABLE_OK),
